@@ -25,6 +25,7 @@ type World struct {
 	Harnesses []*Harness
 	Contracts map[string]*Contract // by target short name
 	Models    map[string]*ssa.Function
+	ModelPkg  map[string]string // model target -> package path where the model was declared (its scope)
 	Loops     map[string]*LoopSpec
 	MayPanic  map[string]string
 	Inline    map[string]bool // dependency functions whose real bodies may be inlined (prefix match on short name)
@@ -100,7 +101,7 @@ func Load(dir string, tags string) (*World, error) {
 	prog, spkgs := ssautil.AllPackages(roots, ssa.InstantiateGenerics)
 	w := &World{
 		Fset: prog.Fset, Prog: prog, Repo: map[string]bool{},
-		Contracts: map[string]*Contract{}, Models: map[string]*ssa.Function{}, Loops: map[string]*LoopSpec{},
+		Contracts: map[string]*Contract{}, Models: map[string]*ssa.Function{}, ModelPkg: map[string]string{}, Loops: map[string]*LoopSpec{},
 		MayPanic: map[string]string{}, Inline: map[string]bool{},
 		MaxSteps: 400000, MaxDepth: 24, DefaultUnroll: 3, GenSeconds: 90,
 		fnInfos: map[*ssa.Function]*fnInfo{}, fnIDs: map[*ssa.Function]uint64{}, byName: map[string]*ssa.Function{},
@@ -271,6 +272,7 @@ func (w *World) readDirectives(pkg *ssa.Package, f *ast.File) error {
 					return fmt.Errorf("%s: model directive needs a function and a target", where)
 				}
 				w.Models[pos[0]] = fn
+				w.ModelPkg[pos[0]] = pkg.Pkg.Path()
 			case "maypanic":
 				if len(pos) < 1 {
 					return fmt.Errorf("%s: maypanic needs a function", where)
